@@ -253,13 +253,26 @@ def install_pool():
     orig_soft = P.TimeoutHandler.on_soft_timeout
     orig_hard = P.TimeoutHandler.on_hard_timeout
 
+    def _intent(kind, job):
+        k = state.K
+        k.record(kind, job._job)
+        W = k.cfg.get('_world')
+        if W is not None:
+            W.flags['%s:%s' % (kind, job._job)] = k.steps
+
     def _soft(self, job):
-        state.K.record('soft-intent', job._job)
+        _intent('soft-intent', job)
         return orig_soft(self, job)
 
     def _hard(self, job):
-        state.K.record('hard-intent', job._job)
+        _intent('hard-intent', job)
         return orig_hard(self, job)
+    orig_lost = P.Pool.mark_as_worker_lost
+
+    def _lost(self, job, exitcode):
+        _intent('lost-intent', job)
+        return orig_lost(self, job, exitcode)
+    _set(P.Pool, 'mark_as_worker_lost', _lost)
     _set(P.TimeoutHandler, 'on_soft_timeout', _soft)
     _set(P.TimeoutHandler, 'on_hard_timeout', _hard)
     orig_step = BC.restart_state.step
